@@ -9,6 +9,11 @@
 //! an integrator problem can never become a verdict); (c) `Normal::cdf` vs quadrature of
 //! `Normal::pdf` and vs `erfc`; (d) exact 0 and no panic strictly outside the support, "no panic,
 //! no NaN, >= 0" on the boundary; (e) MVN pdf vs the harness's own Cholesky in double-double.
+//! (f) the MVN in other units and with structured covariances (`run_mvn_scaled`): the unit in which a
+//! covariance is expressed and the position of its exact zeros are irrelevant to the property, so the
+//! same reference judges covariances D·Σ·D with D = diag(units), standard deviations 1e-20..1e20, and
+//! hub / band / block / graph / sparse-precision / diagonal-plus-rank-one patterns; `ln_pdf` is also
+//! compared with the reference log-density directly (`C02.ln_pdf.formula`).
 #[cfg(miri)]
 pub fn run(_cfg: &crate::report::Cfg, rep: &mut crate::report::Report) {
     rep.inconclusive("C02 needs the glibc oracle (FFI) and has no Miri layer".to_string());
@@ -1611,7 +1616,7 @@ mod native {
             rep.case(&regime);
             rep.check("C02.mvn.moments", &regime, ok, || json!({"setting": setting, "mean()": jf(m), "var()": jf(&v.data.v)}));
         }
-        let rf = MvnRef { d, mean: &mean, l: &l, kappa, logdet, setting: &setting };
+        let rf = MvnRef { d, mean: &mean, l: &l, kappa, logdet, slack: 1.0, setting: &setting };
         for t in [0.0, 0.3, 1.0, 1.0, 2.0, 3.0, 6.0, 12.0, 45.0] {
             // x = mean + t · L z
             let z = rng.normals(d);
@@ -1633,6 +1638,9 @@ mod native {
         l: &'a [f64],
         kappa: f64,
         logdet: f64,
+        /// factor on the a-priori error bound (1 except for covariances whose coordinates have
+        /// different units, see `UNIT_PIVOT_SLACK`)
+        slack: f64,
         setting: &'a serde_json::Value,
     }
 
@@ -1656,7 +1664,7 @@ mod native {
         let ln_ref = -0.5 * (q + logdet + d as f64 * LN_2PI);
         let want = ln_ref.exp();
         // a-priori: the cached inverse and determinant carry errors of order d·eps·kappa
-        let ln_bound = 1e-11 + 64.0 * d as f64 * f64::EPSILON * kappa * (1.0 + q);
+        let ln_bound = rf.slack * (1e-11 + 64.0 * d as f64 * f64::EPSILON * kappa * (1.0 + q));
         let tol = ln_bound.exp_m1();
         rep.case(regime);
         let mr = mvn;
@@ -1668,12 +1676,40 @@ mod native {
             }
         };
         rep.check("C02.pdf.nonneg", regime, !(got < 0.0), || json!({"setting": setting, "x": jf(x), "observed": jnum(got)}));
-        let (ok, ratio) = close_rel(got, want, tol);
-        if ok {
-            rep.note_max("worst_ratio.pdf.formula:mvn", ratio);
+        // As for the univariate laws, the density is judged only where both textbook factors,
+        // exp(−q/2) and ((2π)^d det Σ)^(−1/2), are normal f64 numbers (or the density itself is below
+        // e^-700, where 0 is right to absolute 1e-300): with a covariance in tiny units the normalising
+        // factor is huge and the product is representable where exp(−q/2) alone is not.
+        let ln_norm = -0.5 * (logdet + d as f64 * LN_2PI);
+        let factors_ok = ln_norm.abs() <= 700.0 && ln_ref <= 700.0 && (-0.5 * q >= -700.0 || ln_ref <= -700.0);
+        if factors_ok {
+            let (ok, ratio) = close_rel(got, want, tol);
+            if ok {
+                rep.note_max(if regime.starts_with("mvn:scale") || regime.starts_with("mvn:structured") { "worst_ratio.pdf.formula:mvn:units" } else { "worst_ratio.pdf.formula:mvn" }, ratio);
+            }
+            rep.check("C02.pdf.formula", regime, ok, || json!({"setting": setting, "x": jf(x), "observed": jnum(got), "expected": want, "rel_tol": tol, "cond_inf": kappa, "mahalanobis_sq": q}));
+        } else {
+            rep.note_add("skipped.mvn_points_with_unrepresentable_textbook_factor", 1.0);
         }
-        rep.check("C02.pdf.formula", regime, ok, || json!({"setting": setting, "x": jf(x), "observed": jnum(got), "expected": want, "rel_tol": tol, "cond_inf": kappa, "mahalanobis_sq": q}));
-        if got.is_finite() && got >= 1e-300 {
+        // the log-density against the reference log-density itself (also where the density has
+        // left the f64 range): the same a-priori bound, which is absolute in log space, plus the
+        // rounding of the three terms that are added up
+        if ln_ref.is_finite() {
+            match guard(|| mr.ln_pdf(x)) {
+                Ok(lp) => {
+                    let err = (lp - ln_ref).abs();
+                    let bound = ln_bound + 16.0 * f64::EPSILON * (q + logdet.abs() + d as f64 * LN_2PI);
+                    if err <= bound {
+                        rep.note_max(if regime.starts_with("mvn:scale") || regime.starts_with("mvn:structured") { "worst_ratio.ln_pdf.formula:mvn:units" } else { "worst_ratio.ln_pdf.formula:mvn" }, err / bound);
+                    }
+                    rep.check("C02.ln_pdf.formula", regime, err <= bound, || json!({"setting": setting, "x": jf(x), "ln_pdf": jnum(lp), "expected": ln_ref, "abs_tol": bound, "cond_inf": kappa, "mahalanobis_sq": q}));
+                }
+                Err(msg) => {
+                    rep.check("C02.ln_pdf.formula", regime, false, || json!({"setting": setting, "x": jf(x), "panic": msg}));
+                }
+            }
+        }
+        if factors_ok && got.is_finite() && got >= 1e-300 {
             match guard(|| mr.ln_pdf(x)) {
                 Ok(lp) => {
                     let lw = got.ln();
@@ -1787,7 +1823,7 @@ mod native {
         rep.seen(["mvn:ties:cov=random-spd", "mvn:ties:cov=equicorrelated", "mvn:ties:cov=ar1-toeplitz"][ckind], 1);
         rep.seen(["mvn:ties:mean=zero", "mvn:ties:mean=integer", "mvn:ties:mean=on-lattice", "mvn:ties:mean=generic"][mkind], 1);
         rep.sample(|| json!({"setting": setting, "regime": "mvn:tie:*", "cond_inf": kappa}));
-        let rf = MvnRef { d, mean: &mean, l: &l, kappa, logdet, setting: &setting };
+        let rf = MvnRef { d, mean: &mean, l: &l, kappa, logdet, slack: 1.0, setting: &setting };
         // (a) x = mean
         mvn_check_point(rep, "mvn:tie:all", &mvn, &rf, &mean);
         // a deviation of coordinate j that is guaranteed to change the value
@@ -1869,14 +1905,366 @@ mod native {
     }
 
     // -----------------------------------------------------------------------------------------
+    // multivariate normal: covariances at absolute scales far from 1, structured / sparse covariances
+
+    /// Signed graph Laplacian plus a small positive diagonal: Σ_aa = δ_a + Σ_{edges at a} w_e,
+    /// Σ_ab = ±w_e on the edges, exactly 0 elsewhere. xᵀΣx = Σ δ_a x_a² + Σ w_e (x_a ± x_b)² > 0, so
+    /// the matrix is SPD whatever the graph; correlations are strong (δ small next to the weights).
+    fn laplacian_cov(rng: &mut Rng, d: usize, edges: &[(usize, usize)]) -> Vec<f64> {
+        let mut s = vec![0.0; d * d];
+        for a in 0..d {
+            s[a * d + a] = rng.range(0.1, 0.4);
+        }
+        for &(a, b) in edges {
+            let w = rng.range(0.5, 2.0);
+            let sg = if rng.bool() { 1.0 } else { -1.0 };
+            s[a * d + a] += w;
+            s[b * d + b] += w;
+            s[a * d + b] = sg * w;
+            s[b * d + a] = sg * w;
+        }
+        s
+    }
+
+    /// Edges of a random tree on d nodes (node k hangs on a random earlier node).
+    fn random_tree(rng: &mut Rng, d: usize) -> Vec<(usize, usize)> {
+        (1..d).map(|k| (rng.usize(0, k - 1), k)).collect()
+    }
+
+    fn relabel(rng: &mut Rng, d: usize, edges: &[(usize, usize)]) -> Vec<(usize, usize)> {
+        let p = rng.perm(d);
+        edges.iter().map(|&(a, b)| (p[a], p[b])).collect()
+    }
+
+    /// Largest number of decades between the units of two coordinates of one covariance. The unit of
+    /// the whole matrix is free (1e-20..1e20); between coordinates the monitor stops at 1e12 (variance
+    /// ratio 1e24): from a ratio of 1/eps = 4.5e15 on, an elimination with row pivoting — a legitimate
+    /// way to obtain the inverse and the determinant — selects pivots by unit instead of by size, and a
+    /// Schur complement that vanishes structurally (Markov / sparse covariances) leaves rounding noise
+    /// in the pivot position. Observed on the unchanged library: worst error/bound ratio 0.03 up to
+    /// 1e16, wrong densities from 1e18 on (AR(1) and sparse bases only; see the report).
+    const UNIT_SPREAD: f64 = 12.0;
+
+    /// Allowance on the a-priori bound d·eps·cond·(1+q) when the coordinates of one covariance have
+    /// different units: the bound is stated with the condition number after equilibration (the only
+    /// one that does not depend on the units), but an elimination whose pivot order is dictated by
+    /// the units may pivot on an off-diagonal entry of size |ρ| and then loses a factor ~1/|ρ| against
+    /// it (worst seen on the unchanged library: 0.4 of the bound without the allowance, for a 2 x 2
+    /// covariance with ρ = 1e-3). Finite-precision noise, five orders below any wrong formula.
+    const UNIT_PIVOT_SLACK: f64 = 1e3;
+
+    const BASE_KINDS: [&str; 10] = ["random-spd", "equicorrelated", "ar1-toeplitz", "hub-first", "hub-last", "banded", "block-diagonal", "graph", "sparse-precision", "diag+rank-one"];
+
+    /// Base covariance of order-one entries, exactly symmetric, d >= 1. Kinds 0..2 are the
+    /// correlation structures of `run_mvn` / `run_mvn_ties`; kinds 3.. are structured covariances:
+    /// exact zeros at positions chosen by a graph (hub and leaves with the hub first / last, bands,
+    /// independent dense blocks, rings, trees and sparse graphs under a random labelling), the
+    /// inverse of a sparse precision matrix (chain / tree graphical model), diagonal plus rank one.
+    fn mvn_base(rng: &mut Rng, d: usize, kind: usize) -> Vec<f64> {
+        let mut cov = vec![0.0; d * d];
+        if d == 1 {
+            return vec![rng.log_range(0.3, 3.0)];
+        }
+        match kind {
+            0 => {
+                let g: Vec<f64> = rng.normals(d * d);
+                let delta = rng.log_range(1e-2, 1.0);
+                for i in 0..d {
+                    for j in 0..=i {
+                        let mut s = 0.0;
+                        for k in 0..d {
+                            s += g[k * d + i] * g[k * d + j];
+                        }
+                        let v = s + if i == j { delta } else { 0.0 };
+                        cov[i * d + j] = v;
+                        cov[j * d + i] = v;
+                    }
+                }
+            }
+            1 => {
+                let rho = if rng.bool() { rng.range(0.2, 0.95) } else { -rng.range(0.1, 0.9) / (d as f64 - 1.0) };
+                for i in 0..d {
+                    for j in 0..d {
+                        cov[i * d + j] = if i == j { 1.0 } else { rho };
+                    }
+                }
+            }
+            2 => {
+                let rho = rng.range(0.3, 0.95) * if rng.bool() { 1.0 } else { -1.0 };
+                for i in 0..d {
+                    for j in 0..=i {
+                        let v = rho.powi((i - j) as i32);
+                        cov[i * d + j] = v;
+                        cov[j * d + i] = v;
+                    }
+                }
+            }
+            3 => {
+                let e: Vec<(usize, usize)> = (1..d).map(|i| (0, i)).collect();
+                cov = laplacian_cov(rng, d, &e);
+            }
+            4 => {
+                let e: Vec<(usize, usize)> = (0..d - 1).map(|i| (d - 1, i)).collect();
+                cov = laplacian_cov(rng, d, &e);
+            }
+            5 => {
+                let bw = if d >= 3 && rng.bool() { 2 } else { 1 };
+                let mut e = Vec::new();
+                for i in 0..d {
+                    for b in 1..=bw {
+                        if i + b < d {
+                            e.push((i, i + b));
+                        }
+                    }
+                }
+                cov = laplacian_cov(rng, d, &e);
+            }
+            6 => {
+                // two or three independent blocks, every block a clique
+                let nb = if d >= 5 && rng.bool() { 3 } else { 2 };
+                let mut cuts: Vec<usize> = Vec::new();
+                while cuts.len() < nb - 1 {
+                    let c = rng.usize(1, d - 1);
+                    if !cuts.contains(&c) {
+                        cuts.push(c);
+                    }
+                }
+                cuts.sort();
+                let block_of = |i: usize| cuts.iter().filter(|c| **c <= i).count();
+                let mut e = Vec::new();
+                for i in 0..d {
+                    for j in 0..i {
+                        if block_of(i) == block_of(j) {
+                            e.push((j, i));
+                        }
+                    }
+                }
+                cov = laplacian_cov(rng, d, &e);
+            }
+            7 => {
+                let e: Vec<(usize, usize)> = match rng.usize(0, 3) {
+                    0 if d >= 3 => (0..d).map(|i| (i, (i + 1) % d)).collect(), // ring
+                    1 => random_tree(rng, d),
+                    2 => (1..d).map(|i| (0, i)).collect(), // hub at a random position
+                    _ => {
+                        let mut e = Vec::new();
+                        for i in 0..d {
+                            for j in 0..i {
+                                if rng.chance(0.45) {
+                                    e.push((j, i));
+                                }
+                            }
+                        }
+                        if e.is_empty() {
+                            e.push((0, d - 1));
+                        }
+                        e
+                    }
+                };
+                let e = relabel(rng, d, &e);
+                cov = laplacian_cov(rng, d, &e);
+            }
+            8 => {
+                let e = if rng.bool() { (0..d - 1).map(|i| (i, i + 1)).collect() } else { random_tree(rng, d) };
+                let e = relabel(rng, d, &e);
+                let k = laplacian_cov(rng, d, &e);
+                if let Some(inv) = linref::inverse(&k, d) {
+                    for i in 0..d {
+                        for j in 0..=i {
+                            cov[i * d + j] = inv[i * d + j];
+                            cov[j * d + i] = inv[i * d + j];
+                        }
+                    }
+                } else {
+                    cov = k;
+                }
+            }
+            _ => {
+                let mut u: Vec<f64> = (0..d).map(|_| if rng.chance(0.3) { 0.0 } else { rng.range(0.5, 1.5) * if rng.bool() { 1.0 } else { -1.0 } }).collect();
+                if u.iter().filter(|x| **x != 0.0).count() < 2 {
+                    u[0] = 1.25;
+                    u[d - 1] = -0.75;
+                }
+                for i in 0..d {
+                    for j in 0..d {
+                        cov[i * d + j] = u[i] * u[j] + if i == j { rng.range(0.2, 1.0) } else { 0.0 };
+                    }
+                }
+            }
+        }
+        cov
+    }
+
+    /// The multivariate normal in other units: the base covariances of `mvn_base` with every
+    /// coordinate j expressed in its own unit s_j (Σ_ij -> s_i·Σ_ij·s_j, mean_j -> s_j·mean_j):
+    ///   * `mvn:scale:uniform:*`         one unit for all coordinates, a power of two (the scaled problem is
+    ///                                   then bit for bit the unscaled one) or a power of ten, standard
+    ///                                   deviations 1e-20..1e20 (variances 1e-40..1e40);
+    ///   * `mvn:scale:per-coordinate:*`  a different unit per coordinate, either within a few decades of
+    ///                                   a common magnitude or spread over all 40 decades;
+    ///   * `mvn:structured:<kind>`       unit scale, structured base covariances only.
+    /// Evaluation points are mean + t·L·z (t = 0..45) and points that tie the mean on a subset of the
+    /// coordinates. The reference (log-density from the double-double Cholesky factor of the very same
+    /// matrix) and its tolerance (condition number of the covariance after diagonal equilibration) do
+    /// not depend on the units: the density scales by 1/Π s_j, the log-density shifts by −Σ ln s_j.
+    /// Every textbook factor stays far inside the f64 range: |ln det| <= 6·ln(1e41) = 566.
+    fn run_mvn_scaled(rng: &mut Rng, i: usize, rep: &mut Report) {
+        let d = 1 + i % 6;
+        let kind = (i / 6) % BASE_KINDS.len();
+        let mode = (i / 60) % 5;
+        let structured = kind >= 3 && d >= 2;
+        let base = mvn_base(rng, d, kind);
+        // units
+        let (s, scale_label): (Vec<f64>, String) = match mode {
+            0 => {
+                let k = rng.int(-66, 66) as i32;
+                (vec![2f64.powi(k); d], "uniform".into())
+            }
+            1 => {
+                let k = rng.int(-20, 20) as i32;
+                (vec![10f64.powi(k); d], "uniform".into())
+            }
+            2 => {
+                // a few decades around a common magnitude
+                let u0 = rng.range(-17.0, 17.0);
+                ((0..d).map(|_| 10f64.powf(u0 + rng.range(-3.0, 3.0))).collect(), "per-coordinate".into())
+            }
+            3 => {
+                // up to UNIT_SPREAD decades between two coordinates, powers of ten or of two
+                let u0 = rng.range(-20.0 + 0.5 * UNIT_SPREAD, 20.0 - 0.5 * UNIT_SPREAD);
+                let h = 0.5 * UNIT_SPREAD;
+                ((0..d).map(|_| if rng.bool() { 10f64.powf(u0 + rng.range(-h, h)) } else { 2f64.powi(((u0 + rng.range(-h, h)) / std::f64::consts::LOG10_2).round() as i32) }).collect(), "per-coordinate".into())
+            }
+            _ => {
+                if structured {
+                    (vec![1.0; d], String::new())
+                } else {
+                    // graded: every coordinate a fixed number of decades above the previous one
+                    let step = rng.range(0.5, UNIT_SPREAD / 5.0);
+                    let u0 = rng.range(-20.0, 20.0 - UNIT_SPREAD);
+                    ((0..d).map(|j| 10f64.powf(u0 + step * j as f64)).collect(), "per-coordinate".into())
+                }
+            }
+        };
+        let (smin, smax) = (s.iter().cloned().fold(f64::INFINITY, f64::min), s.iter().cloned().fold(0.0, f64::max));
+        let regime = if scale_label.is_empty() {
+            format!("mvn:structured:{}", BASE_KINDS[kind])
+        } else {
+            let band = if smax < 1e-6 {
+                "sd<1e-6"
+            } else if smin > 1e6 {
+                "sd>1e6"
+            } else if smin >= 1e-6 && smax <= 1e6 {
+                "1e-6<=sd<=1e6"
+            } else {
+                "mixed"
+            };
+            format!("mvn:scale:{}:{}", scale_label, band)
+        };
+        let mut cov = vec![0.0; d * d];
+        for a in 0..d {
+            for b in 0..=a {
+                let v = (base[a * d + b] * s[a]) * s[b];
+                cov[a * d + b] = v;
+                cov[b * d + a] = v;
+            }
+        }
+        let mkind = rng.usize(0, 3);
+        let mean: Vec<f64> = (0..d)
+            .map(|j| {
+                s[j] * match mkind {
+                    0 => 0.0,
+                    1 => rng.int(-1000, 1000) as f64,
+                    2 => rng.range(-10.0, 10.0),
+                    _ => rng.range(-1e3, 1e3),
+                }
+            })
+            .collect();
+        let setting = json!({"dim": d, "mean": jf(&mean), "cov": jf(&cov), "base": BASE_KINDS[kind], "units": jf(&s)});
+        let l = match linref::cholesky(&cov, d) {
+            Some(l) => l,
+            None => {
+                rep.inconclusive(format!("generated covariance ({}, units {:?}) not SPD for the reference Cholesky", BASE_KINDS[kind], s));
+                return;
+            }
+        };
+        // condition number after diagonal equilibration: invariant under the choice of units
+        let sd: Vec<f64> = (0..d).map(|j| cov[j * d + j].sqrt()).collect();
+        let corr: Vec<f64> = (0..d * d).map(|t| cov[t] / sd[t / d] / sd[t % d]).collect();
+        let kappa = linref::cond_inf(&corr, d);
+        if !(kappa < 1e8) {
+            rep.inconclusive(format!("generated covariance ({}) has equilibrated condition number {:e}", BASE_KINDS[kind], kappa));
+            return;
+        }
+        let logdet: f64 = 2.0 * (0..d).map(|j| l[j * d + j].ln()).sum::<f64>();
+        rep.distinct(Hasher::new().s("mvn-scaled").fs(&cov).fs(&mean).finish(), true);
+        let mvn = match guard(|| MVN::new(mean.clone(), Matrix::new(cov.clone(), d as i32, d as i32))) {
+            Ok(m) => m,
+            Err(msg) => {
+                rep.case(&regime);
+                rep.check("C02.construct.no_panic", &regime, false, || json!({"setting": setting, "panic": msg}));
+                return;
+            }
+        };
+        rep.seen(&format!("mvn:units:base={}", if d == 1 { "d=1" } else { BASE_KINDS[kind] }), 1);
+        rep.seen(&format!("mvn:units:d={}", d), 1);
+        if structured {
+            // an exact zero of the covariance where its Cholesky factor is not zero (fill-in)
+            if (0..d).any(|a| (0..a).any(|b| cov[a * d + b] == 0.0 && l[a * d + b] != 0.0)) {
+                rep.seen("mvn:structured:zero-with-fill-in", 1);
+            }
+            if (0..d).any(|a| (0..a).any(|b| cov[a * d + b] == 0.0)) {
+                rep.seen("mvn:structured:exact-zero", 1);
+            }
+        }
+        rep.sample(|| json!({"setting": setting, "regime": regime, "cond_inf_equilibrated": kappa}));
+        {
+            let mr = &mvn;
+            let m: &[f64] = mr.mean();
+            let v: &Matrix = mr.var();
+            let ok = m == &mean[..] && v.data.v == cov && v.nrows == d && v.ncols == d;
+            rep.case(&regime);
+            rep.check("C02.mvn.moments", &regime, ok, || json!({"setting": setting, "mean()": jf(m), "var()": jf(&v.data.v)}));
+        }
+        let rf = MvnRef { d, mean: &mean, l: &l, kappa, logdet, slack: if s.iter().all(|u| *u == s[0]) { 1.0 } else { UNIT_PIVOT_SLACK }, setting: &setting };
+        for t in [0.0, 0.3, 1.0, 1.0, 2.0, 3.0, 6.0, 12.0, 45.0] {
+            let z = rng.normals(d);
+            let mut x = mean.clone();
+            for a in 0..d {
+                for b in 0..=a {
+                    x[a] += t * l[a * d + b] * z[b];
+                }
+            }
+            mvn_check_point(rep, &regime, &mvn, &rf, &x);
+        }
+        // points that equal the mean bit for bit on a non-empty proper subset of the coordinates
+        if d >= 2 {
+            let one = rng.usize(0, d - 1);
+            let subsets: [Vec<bool>; 5] = [
+                (0..d).map(|j| j >= 1).collect(),
+                (0..d).map(|j| j == 0).collect(),
+                (0..d).map(|j| j != d - 1).collect(),
+                (0..d).map(|j| j == one).collect(),
+                (0..d).map(|j| if j == one { false } else { rng.bool() }).collect(),
+            ];
+            for tied in subsets.iter() {
+                let x: Vec<f64> = (0..d).map(|j| if tied[j] { mean[j] } else { mean[j] + *rng.choose(&[0.3, 1.0, 1.0, 2.5]) * sd[j] * rng.normal() }).collect();
+                mvn_check_point(rep, &regime, &mvn, &rf, &x);
+            }
+        }
+    }
+
+    // -----------------------------------------------------------------------------------------
 
     pub fn run(cfg: &Cfg, rep: &mut Report) {
-        rep.rule = "settings = fixed grid over every law x parameter regime of the quantifier (+ random settings inside the same regimes in the thorough tier); per setting: 41-point quantile ladder, centre, ±50/1e3/1e6 scale units, support ends ±1 ulp, points strictly outside; discrete laws: every count of the support (Poisson: 0..lambda+40 sqrt(lambda)+60) plus negative and too-large counts; edge settings: Gamma shape 20..171.5 x rates 1e-3..1e3 and rates with α·ln β = ±690..709.5, Beta with α+β = 143..171.6 in both orders, χ² dof 120..198, plus points x with (shape−1)·ln x = 680..709.6 for every Gamma/χ² setting; MVN: random SPD covariance, dimension 1..6, points at 0..45 Mahalanobis radii. Exact coincidences: every continuous setting also at its parameters and their simple combinations, textbook/reported mean, mean ± sd, mode, median, whole numbers and centre + k·scale/2 (regime <base>:coincide); MVN with random-SPD / equicorrelated / AR(1)-Toeplitz covariances and zero / integer / on-lattice / generic means at x = mean, at points that equal the mean bit for bit on a non-empty proper subset of the coordinates (10 subsets per setting incl. first-only, last-only, all-but-first) and at power-of-two lattice points, axis points and signed zeros (regimes mvn:tie:all, mvn:tie:partial, mvn:lattice). evaluations = point evaluations + one per moment check; distinct = distinct (law, parameters); all are non-trivial".into();
+        rep.rule = "settings = fixed grid over every law x parameter regime of the quantifier (+ random settings inside the same regimes in the thorough tier); per setting: 41-point quantile ladder, centre, ±50/1e3/1e6 scale units, support ends ±1 ulp, points strictly outside; discrete laws: every count of the support (Poisson: 0..lambda+40 sqrt(lambda)+60) plus negative and too-large counts; edge settings: Gamma shape 20..171.5 x rates 1e-3..1e3 and rates with α·ln β = ±690..709.5, Beta with α+β = 143..171.6 in both orders, χ² dof 120..198, plus points x with (shape−1)·ln x = 680..709.6 for every Gamma/χ² setting; MVN: random SPD covariance, dimension 1..6, points at 0..45 Mahalanobis radii. Exact coincidences: every continuous setting also at its parameters and their simple combinations, textbook/reported mean, mean ± sd, mode, median, whole numbers and centre + k·scale/2 (regime <base>:coincide); MVN with random-SPD / equicorrelated / AR(1)-Toeplitz covariances and zero / integer / on-lattice / generic means at x = mean, at points that equal the mean bit for bit on a non-empty proper subset of the coordinates (10 subsets per setting incl. first-only, last-only, all-but-first) and at power-of-two lattice points, axis points and signed zeros (regimes mvn:tie:all, mvn:tie:partial, mvn:lattice). MVN in other units (regimes mvn:scale:uniform:*, mvn:scale:per-coordinate:*): ten base covariances (random SPD, equicorrelated, AR(1)-Toeplitz, hub-and-leaves with the hub first / last, banded, block-diagonal, ring / tree / sparse graph under a random labelling, inverse of a chain / tree precision matrix, diagonal + rank one) x dimension 1..6 x units s_j per coordinate (one power of two or ten for all, a few decades around a common magnitude, independent over 40 decades, graded), standard deviations 1e-20..1e20, means s_j x (0 / integer / O(10) / O(1e3)), points mean + t L z for t = 0..45 plus 5 partial ties with the mean; the structured bases also at unit scale (regimes mvn:structured:<kind>); pdf and ln_pdf against the double-double reference. evaluations = point evaluations + one per moment check; distinct = distinct (law, parameters); all are non-trivial".into();
         rep.assume("pointwise formula checks are restricted to points where every partial product of the textbook factors is a representable f64 (DESIGN: 'combinations whose textbook factors are individually representable'); skipped points are counted in notes.skipped.*");
         rep.assume("edge of the f64 range (regimes <law>:factor-edge, laws Gamma, Beta, ChiSquared): a point that fails the order-free rule only because a factor or partial product lies in the last e^10 of the range is still judged when every intermediate result of the textbook formula evaluated as printed (Gamma: β^α/Γ(α)·x^(α−1)·e^(−βx); Beta: x^(α−1)(1−x)^(β−1)/B, B = Γ(α)Γ(β)/Γ(α+β); χ²: 1/(2^(k/2)Γ(k/2))·x^(k/2−1)·e^(−x/2)) has its logarithm in [-708, 709.7] (underflow allowed when the density itself is below e^-700); beyond that range no textbook factor is an f64 and nothing is judged");
         rep.assume("mass/mean/var are integrated only when the pointwise formula check passed for the setting (a wrong pdf is already reported), when the moment is finite with tail exponent margin >= 1/2 (T dof >= 1.5/2.5, Pareto alpha >= 1.5/2.5) and the density is not singular at a non-zero support end (Beta with b < 1)");
         rep.assume("Normal sigma = 0, equal-bounds Uniform and NaN/inf parameters or arguments are outside the quantifier");
-        rep.assume("tolerances: formula (1e-11 + 16 eps sum|log factors|) rel + 1e-300 abs; moments 1e-8 (mean relative to max(|mean|, sd)); Normal::cdf 2e-7 abs; MVN exp(1e-11 + 64 d eps cond_inf (1+q)) - 1 rel");
+        rep.assume("tolerances: formula (1e-11 + 16 eps sum|log factors|) rel + 1e-300 abs; moments 1e-8 (mean relative to max(|mean|, sd)); Normal::cdf 2e-7 abs; MVN exp(1e-11 + 64 d eps cond_inf (1+q)) - 1 rel, MVN ln_pdf 1e-11 + 64 d eps cond_inf (1+q) + 16 eps (q + |ln det| + d ln 2pi) abs; for the scaled / structured MVN family cond_inf is taken after diagonal equilibration (it does not depend on the units) and the bound is multiplied by 1e3 when the coordinates have different units (pivot order dictated by the units)");
+        rep.assume("MVN in other units: standard deviations 1e-20..1e20 per coordinate (variances 1e-40..1e40), so that det, (2 pi)^d det and every entry of the inverse covariance stay inside the f64 range (|ln det| <= 566); units of two coordinates of one covariance at most 1e12 apart (cond of the covariance up to ~1e26 while the equilibrated condition number stays below 1e4)");
+        rep.assume("MVN density judged only where exp(-q/2) and the normalising factor are both normal f64 numbers (|log| <= 700) or the density is below e^-700; the log-density is judged everywhere");
         if let Err(e) = gk_selftest() {
             rep.inconclusive(format!("oracle self-test failed: {}", e));
             return;
@@ -1897,6 +2285,9 @@ mod native {
         // evaluation points with exact coincidences against the parameters (MVN: partial ties)
         let nt = cfg.pick(480, 4800, 2);
         par_cases(cfg, rep, 9, nt, |i, rng, rep| run_mvn_ties(rng, 1 + (i + 1) % 6, rep));
+        // the same laws in other units (covariances at absolute scales far from 1) and structured covariances
+        let ns = cfg.pick(1200, 12000, 2);
+        par_cases(cfg, rep, 10, ns, |i, rng, rep| run_mvn_scaled(rng, if lite { 7 + 67 * i } else { i }, rep));
         // factors next to the end of the f64 range
         let mut egrid = edge_grid();
         if lite {
@@ -1938,6 +2329,23 @@ mod native {
             for law in ["normal", "gamma", "beta", "chi2", "t", "pareto", "gumbel", "exponential", "uniform"] {
                 rep.require(&format!("coincide:{}", law), 10);
             }
+            for band in ["sd<1e-6", "1e-6<=sd<=1e6", "sd>1e6"] {
+                rep.require(&format!("mvn:scale:uniform:{}", band), 200);
+            }
+            for band in ["sd<1e-6", "sd>1e6", "mixed"] {
+                rep.require(&format!("mvn:scale:per-coordinate:{}", band), 200);
+            }
+            for k in BASE_KINDS.iter() {
+                rep.require(&format!("mvn:units:base={}", k), 20);
+                if *k != "random-spd" && *k != "equicorrelated" && *k != "ar1-toeplitz" {
+                    rep.require(&format!("mvn:structured:{}", k), 50);
+                }
+            }
+            for dd in 1..=6 {
+                rep.require(&format!("mvn:units:d={}", dd), 20);
+            }
+            rep.require("mvn:structured:exact-zero", 20);
+            rep.require("mvn:structured:zero-with-fill-in", 20);
         }
     }
 } // mod native
